@@ -197,6 +197,8 @@ class ResultABC(DiffEqualityMixin, metaclass=abc.ABCMeta):
         check_dtypes=False,
     ):
         def array_allclose(left_value, right_value):
+            if np.shape(left_value) != np.shape(right_value):
+                return False
             return np.allclose(
                 left_value,
                 right_value,
